@@ -19,6 +19,12 @@ for d, _, fs in os.walk(root):
             src = os.path.join(d, f)
             rel = os.path.relpath(src, root)
             rep['/repo/' + rel] = src
+# the shim packages are virtual directories inside the repo module
+for d, _, fs in os.walk('/verif/shim'):
+    for f in fs:
+        if f.endswith('.go'):
+            src = os.path.join(d, f)
+            rep['/repo/zzverif/' + os.path.relpath(src, '/verif/shim')] = src
 patches = json.load(open(os.path.join(root, 'PATCHES.json')))
 os.makedirs(outdir, exist_ok=True)
 for p in patches:
